@@ -120,6 +120,8 @@ def install(prefix, points=True, optimize=None):
     (points=True) and / or at the given optimisation level (optimize=1: what `python -O` / PYTHONOPTIMIZE=1 runs: assert
     statements removed, __debug__ False).  Settings of several calls add up.  Refuses when it is already imported."""
     loaded = [m for m in sys.modules if m == prefix or m.startswith(prefix + ".")]
+    if loaded and __import__("os").environ.get("VERIF_DESCRIBE_ONLY"):
+        return          # tools that only read the harness descriptions (MANIFEST generation) import all harnesses in one process
     if loaded:
         raise RuntimeError("instrument.install(%r) after import of %r" % (prefix, loaded[:3]))
     finder = next((f for f in sys.meta_path if isinstance(f, _Finder) and f.prefix == prefix), None)
